@@ -345,7 +345,10 @@ func (w *storeWorld) record(v, ki int, path string, p []*lib.Node, errS string) 
 	w.proofs[v][ki] = append(w.proofs[v][ki], &storeProof{paths: []string{path}, proof: p, err: errS})
 }
 
-func buildStoreWorld() (w *storeWorld, err error) {
+// afterRollback: between version 1 and version 2 of the history the store commits two versions of an ABANDONED
+// branch (other keys, other values) and is rolled back to version 1 (the offline maintenance operation): everything
+// from version 2 on is built on a database that once held another future.
+func buildStoreWorld(afterRollback bool) (w *storeWorld, err error) {
 	defer func() {
 		if p := recover(); p != nil {
 			err = fmt.Errorf("panic while building the store history: %v", p)
@@ -419,6 +422,29 @@ func buildStoreWorld() (w *storeWorld, err error) {
 			w.record(vi, ki, pathReadOnly, p, errS)
 		}
 		ro.Discard()
+		if afterRollback && vi == 0 {
+			for d := 0; d < 2; d++ {
+				for _, n := range []string{"k18", "k19", "q1", "k1", "k5"} {
+					if e := w.st.Set(bytes.Clone(u.keys[u.idx[n]]), []byte(fmt.Sprintf("abandoned-%d-%s", d, n))); e != nil {
+						return nil, e
+					}
+				}
+				for _, n := range []string{"k0", "k7", "k12"} {
+					if e := w.st.Delete(bytes.Clone(u.keys[u.idx[n]])); e != nil {
+						return nil, e
+					}
+				}
+				if _, e := w.st.Commit(); e != nil {
+					return nil, e
+				}
+			}
+			if e := w.st.Rollback(1); e != nil {
+				return nil, e
+			}
+			if w.st.Version() != 1 {
+				return nil, fmt.Errorf("after Rollback(1) the store is at version %d", w.st.Version())
+			}
+		}
 	}
 	// historical read-only views after all commits
 	for vi := range storeHistory {
